@@ -12,6 +12,7 @@ import (
 	"github.com/LiskHQ/lisk-engine/pkg/consensus"
 	"github.com/LiskHQ/lisk-engine/pkg/consensus/liskbft"
 	"github.com/LiskHQ/lisk-engine/pkg/generator"
+	"github.com/LiskHQ/lisk-engine/pkg/p2p"
 
 	"verif/sim/refmodel"
 	"verif/sim/simkit"
@@ -68,6 +69,44 @@ func NewMonitor(w *World, report Reporter) *Monitor {
 	m.signed = map[string][]refmodel.BFTHeader{}
 	m.expectOwn = map[int]bool{}
 	w.S.Hooks.Forged = func(n *Node, _ *blockchain.Block) { m.onForged(n) }
+	w.S.Hooks.NodeDied = func(n *Node, what string) {
+		m.expectOwn[n.ID] = false
+		m.stepApplied[n.ID] = nil
+		m.pendingDel[n.ID] = nil
+		delete(m.poolBefore, n.ID)
+	}
+	prevGossip := w.S.Hooks.Gossip
+	w.S.Hooks.Gossip = func(to *Node, from p2p.PeerID, topic string, data []byte) {
+		if prevGossip != nil {
+			prevGossip(to, from, topic, data)
+		}
+		if topic == consensus.P2PEventPostBlock {
+			if b, err := blockchain.NewBlock(data); err == nil {
+				m.noteSignedBlock(b, "seen on the network")
+			}
+		}
+	}
+	for _, n := range w.S.Nodes {
+		if n.IsAdversary {
+			continue
+		}
+		n.OnHandOff = func(n *Node, b *blockchain.Block) {
+			// "the largest height it ever generated is persisted before the block is handed on": at the hand-off the
+			// generator's database must already hold the record of this very header (a crash right after the hand-off
+			// must not let the restarted generator forget what it signed)
+			simkit.Probe("c15_hand_off_checked")
+			raw, ok := n.GeneratorDB.Get(append([]byte{0, 0}, b.Header.GeneratorAddress...))
+			info := &generator.GeneratorInfo{}
+			if ok {
+				if err := info.Decode(raw); err != nil {
+					ok = false
+				}
+			}
+			if !ok || info.Height != b.Header.Height || info.MaxHeightGenerated != b.Header.MaxHeightGenerated || info.MaxHeightPrevoted != b.Header.MaxHeightPrevoted {
+				m.report("C15", "persisted-before-hand-off", "generator-info", "%s hands on its block at height %d (maxHeightPrevoted %d, maxHeightGenerated %d) while its generator database holds %+v (present %v) for that key", n.Name, b.Header.Height, b.Header.MaxHeightPrevoted, b.Header.MaxHeightGenerated, *info, ok)
+			}
+		}
+	}
 	m.tipOf = map[int]string{}
 	m.poolBefore = map[int][]*blockchain.Transaction{}
 	m.nonceBefore = map[int]map[string]uint64{}
@@ -222,7 +261,7 @@ func (m *Monitor) afterStep(n *Node, what string) {
 			}
 		}
 		if !own {
-			m.report("C15", "own-block-accepted", "rejected", "%s generated a block at %v which its own block processing did not accept: %v", n.Name, m.S.Now(), n.Log.Tail(2))
+			m.report("C15", "own-block-accepted", "rejected", "%s generated a block at %v (step %q, %d blocks applied in the step, queue %d, crash armed %v) which its own block processing did not accept: %v", n.Name, m.S.Now(), what, len(applied), n.Exec.VerifQueueLen(), n.CrashArmed, n.Log.Tail(8))
 		} else {
 			simkit.Probe("own_block_accepted")
 		}
@@ -527,6 +566,25 @@ func (m *Monitor) afterRestart(n *Node) {
 	defer m.Raise()
 	tip := n.Tip()
 	m.tipOf[n.ID] = string(tip.ID)
+	// a process killed in the middle of a step may have committed a block durably without having announced it: the
+	// restarted node stands on blocks the observers never saw applied. Take them from its database.
+	var missing []*blockchain.Block
+	for h := tip.Height; ; h-- {
+		b, err := n.Chain.DataAccess().GetBlockByHeight(h)
+		if err != nil || m.Tree.ByID[string(b.Header.ID)] != nil {
+			break
+		}
+		missing = append(missing, b)
+		if h == 0 {
+			break
+		}
+	}
+	for i := len(missing) - 1; i >= 0; i-- {
+		simkit.Probe("block_committed_by_a_killed_process_learned_at_restart")
+		if _, err := m.Tree.Add(missing[i]); err != nil {
+			break
+		}
+	}
 	tb := m.Tree.ByID[string(tip.ID)]
 	f := n.Finalized()
 	if prev, ok := m.nowF[n.ID]; ok && f < prev && m.Enabled["C04"] {
@@ -605,6 +663,38 @@ func (m *Monitor) onForged(n *Node) {
 		}
 		m.signed[string(v.Address)] = append(list, h)
 	}
+}
+
+// noteSignedBlock records the header of a block that carries a valid signature of an honest validator's key - wherever
+// it was seen - and compares it with everything that key signed before: the generator's own record in its database
+// is only one witness of what was signed (a header that left the node before the record was written is another).
+func (m *Monitor) noteSignedBlock(b *blockchain.Block, where string) {
+	var val *Validator
+	for _, v := range m.W.Vals {
+		if string(v.Address) == string(b.Header.GeneratorAddress) {
+			val = v
+		}
+	}
+	if val == nil || val.Byzantine || !b.Header.VerifySignature(m.W.P.ChainID, val.GenPub) {
+		return
+	}
+	h := refmodel.BFTHeader{Height: b.Header.Height, Generator: string(val.Address), MaxHeightGenerated: b.Header.MaxHeightGenerated, MaxHeightPrevoted: b.Header.MaxHeightPrevoted}
+	list := m.signed[string(val.Address)]
+	for _, o := range list {
+		if o == h {
+			return
+		}
+	}
+	for _, o := range list {
+		if refmodel.Contradicting(o, h) {
+			m.PremiseBroken = true
+			simkit.Probe("honest_generator_contradicted_itself")
+			m.report("C15", "self-contradiction", "signed-headers", "validator %s signed header (height %d, maxHeightPrevoted %d, maxHeightGenerated %d; %s) which contradicts its earlier header (height %d, maxHeightPrevoted %d, maxHeightGenerated %d)",
+				short(val.Address), h.Height, h.MaxHeightPrevoted, h.MaxHeightGenerated, where, o.Height, o.MaxHeightPrevoted, o.MaxHeightGenerated)
+			break
+		}
+	}
+	m.signed[string(val.Address)] = append(list, h)
 }
 
 func (m *Monitor) isOwnKey(n *Node, addr []byte) bool {
